@@ -32,7 +32,7 @@ var c17Lengths = []int{1, 100, 4096, 65534, 65535, 65536, 65537, 70000, 262144, 
 var c17Carriers = []string{
 	"ra-entry|generate", "ra-entry|generate-stdin", "ra-entry|format", "ra-entry|update",
 	"ra-expanded-entry|generate", "ra-expanded-entry|generate-stdin", "ra-expanded-entry|update",
-	"ra-prefix|generate", "ra-suffix|generate", "include-prefixed-entry|generate",
+	"ra-prefix|generate", "ra-suffix|generate", "include-prefixed-entry|generate", "ra-entry-beside-definition|generate", "ra-entry-beside-definition|update",
 	"ra-block-entry|generate", "ra-comment|generate", "ra-comment|generate-stdin", "ra-comment|update", "ra-comment|format",
 	"include-entry|generate", "include-entry-pairs|generate", "include-except-F|generate", "include-except-X|generate",
 	"yaml-payload|renumber", "conf-line|copyright", "rules-line|update",
@@ -151,6 +151,11 @@ func c17Build(p *C17Params) *c17Built {
 		lm := append([]string{"##!> define big " + mc}, words("{{big}}{{big}}{{big}}")...)
 		put(ra, lm)
 		b.Words = append(append([]string{}, short...), pl+pl+pl)
+	case "ra-entry-beside-definition":
+		// the file defines a name (used by a short entry); the long entry itself refers to nothing
+		lm := append(append([]string{"##!> define dd x"}, words(macro)...), "a{{dd}}z")
+		put(ra, lm)
+		b.Words = append(append([]string{}, short...), plain, "axz")
 	case "ra-prefix", "ra-suffix":
 		// the long line is the prefix / suffix of the whole alternation
 		sig := "##!^ "
